@@ -68,6 +68,12 @@ func enumPaths(v reflect.Value, tag string, prefix []string, depth int, out *[]P
 	switch cur.Kind() {
 	case reflect.Map:
 		for _, k := range cur.MapKeys() {
+			if cur.Type().Key().Kind() == reflect.Interface {
+				// a path part is a string: it only addresses keys whose dynamic type is exactly string
+				if kk := k.Elem(); !kk.IsValid() || kk.Type() != reflect.TypeOf("") {
+					continue
+				}
+			}
 			if ks, ok := keyString(k); ok {
 				add(ks, cur.MapIndex(k))
 			}
